@@ -447,13 +447,20 @@ def _validated_versions(ctx, versions, lo, hi):
         fi = hs.methods.get(nm) if nm else None
         if fi is None or fi.name == "__init__":
             continue
+        def _tg(n):
+            """`<s>.versions = ..` or the in-place `<s>.versions[:] = ..` -> the attribute node"""
+            t = n.targets[0]
+            if isinstance(t, ast.Subscript) and isinstance(t.slice, ast.Slice) and t.slice.lower is None \
+                    and t.slice.upper is None:
+                t = t.value
+            return t
         stores = [n for n in own_nodes(fi.node) if isinstance(n, ast.Assign) and len(n.targets) == 1
-                  and isinstance(n.targets[0], ast.Attribute) and n.targets[0].attr == "versions"
-                  and isinstance(n.targets[0].value, ast.Name)
+                  and isinstance(_tg(n), ast.Attribute) and _tg(n).attr == "versions"
+                  and isinstance(_tg(n).value, ast.Name)
                   and not (isinstance(n.value, ast.Attribute) and n.value.attr == "versions")]
         if not stores:
             continue
-        base = stores[0].targets[0].value.id
+        base = _tg(stores[0]).value.id
         g = ctx.an.cfg(fi)
         env = {base + ".versions": cur, base + ".minVersion": lo, base + ".maxVersion": hi,
                "__index__": ctx.index, "__an__": ctx.an}
@@ -554,9 +561,64 @@ def rule_version_range(ctx):
     spec_rows(ctx, R, TLSCONN + "_clientGetServerHello", rows)
 
 
+def rule_dh_group(ctx):
+    """DH-GROUP: the FFDHE parameters used are those of the group that was selected: every lookup in
+    the RFC 7919 table is keyed by the group's id alone (id - 256, the table's order), whatever the
+    order or content of the configured list.  The index expression is evaluated for every id
+    (condeval.ev, nothing is run); reading anything else (a settings list, a position) is a violation."""
+    from ..condeval import ev, Unknown
+    R = "C03.DH-GROUP"
+    sites = 0
+    for fi in ctx.index.all_functions():
+        for n in own_nodes(fi.node):
+            if not (isinstance(n, ast.Subscript) and isinstance(n.value, ast.Name) and n.value.id == "RFC7919_GROUPS"
+                    and isinstance(n.ctx, ast.Load) and not isinstance(n.slice, ast.Slice)):
+                continue
+            sites += 1
+            idx = n.slice
+            # named constants of the package's enumeration classes are constants
+            cenv = {}
+            bases = set()
+            for x in ast.walk(idx):
+                if isinstance(x, ast.Attribute) and isinstance(x.value, ast.Name):
+                    cl = ctx.index.modules["constants"].classes.get(x.value.id) if "constants" in ctx.index.modules else None
+                    if cl is not None:
+                        v = None
+                        for st_ in cl.node.body:
+                            if isinstance(st_, ast.Assign) and len(st_.targets) == 1 and isinstance(st_.targets[0], ast.Name) \
+                                    and st_.targets[0].id == x.attr and isinstance(st_.value, ast.Constant):
+                                v = st_.value.value
+                        if isinstance(v, int):
+                            cenv[norm(x)] = v
+                            bases.add(x.value.id)
+            free = sorted({x.id for x in ast.walk(idx) if isinstance(x, ast.Name)} - bases)
+            attrs = sorted({attr_chain(x) for x in ast.walk(idx) if isinstance(x, ast.Attribute)
+                            and attr_chain(x) and attr_chain(x).split(".")[0] in ("self", "settings")})
+            bad = None
+            if attrs:
+                bad = "reads %s" % ", ".join(attrs)
+            elif len(free) != 1:
+                bad = "is not a function of the selected group alone (names: %s)" % free
+            else:
+                for gid in (256, 257, 258, 259, 260):
+                    try:
+                        got = ev(idx, dict(cenv, **{free[0]: gid, "__index__": ctx.index}))
+                    except (Unknown, TypeError, AttributeError, KeyError, IndexError, ValueError) as e:
+                        raise AnalysisError("%s: cannot evaluate the table index `%s`: %s" % (R, norm(idx), e))
+                    if got != gid - 256:
+                        bad = "gives entry %r for group id %d (entry %d is that group's)" % (got, gid, gid - 256)
+                        break
+            ctx.check(R, bad is None, fi.qname, n,
+                      "the RFC 7919 parameters must be those of the selected group: the index `%s` %s" % (norm(idx), bad),
+                      fi.loc(n), what="%s: RFC7919_GROUPS[%s] keyed by the group id" % (fi.short, norm(idx)))
+    if sites < 2:
+        raise AnalysisError("%s: only %d lookups in RFC7919_GROUPS found (confirmed 2)" % (R, sites))
+
+
 RULES = [
     ("C03.POLICY", "quick", rule_policy_rows),
     ("C03.VERSION", "quick", rule_version_range),
+    ("C03.DH-GROUP", "quick", rule_dh_group),
     ("C03.SH-GATES", "quick", rule_sh_gates),
     ("C03.RESUME-POLICY", "quick", rule_resume_policy),
     ("C03.SRV-PICK", "quick", rule_srv_pick),
